@@ -133,7 +133,7 @@ func c02(c *Ctx) {
 		nf = 600
 	}
 	for i := 0; i < nf; i++ {
-		f := randomFrame(c)
+		f := randomFrame(c, true)
 		one(f, "valid")
 		for bit := 0; bit < len(f)*8; bit++ {
 			g := append([]byte{}, f...)
@@ -148,6 +148,19 @@ func c02(c *Ctx) {
 			one(g, "extended")
 		}
 	}
+	// (iii-b) every declared body length 0..1023 (all ten bits of the length field), both versions, with and
+	// without package fields
+	for bl := 0; bl <= 1023; bl++ {
+		ver := uint8(bl & 1)
+		bcd := make([]byte, 6+4*int(ver))
+		rng.Read(bcd)
+		body := make([]byte, bl)
+		rng.Read(body)
+		m := RefMsg{ID: uint16(rng.Intn(65536)), Enc: uint8(rng.Intn(2)), Frag: uint8((bl >> 1) & 1), Ver: ver, Bcd: bcd,
+			Serial: uint16(rng.Intn(65536)), Sum: uint16(1 + rng.Intn(9)), No: uint16(1 + rng.Intn(9)), Body: body}
+		one(RefFrame(m), "length-sweep")
+	}
+
 	// (iv) random strings and random valid frames
 	n := 3000
 	if !c.Quick() {
@@ -155,7 +168,7 @@ func c02(c *Ctx) {
 	}
 	for i := 0; i < n; i++ {
 		if i%2 == 0 {
-			one(randomFrame(c), "valid")
+			one(randomFrame(c, false), "valid")
 			continue
 		}
 		d := make([]byte, rng.Intn(40))
@@ -167,7 +180,7 @@ func c02(c *Ctx) {
 	}
 }
 
-func randomFrame(c *Ctx) []byte {
+func randomFrame(c *Ctx, small bool) []byte {
 	rng := c.Rng
 	ver := uint8(rng.Intn(2))
 	bcd := make([]byte, 6+4*int(ver))
@@ -175,7 +188,11 @@ func randomFrame(c *Ctx) []byte {
 	if rng.Intn(5) == 0 {
 		bcd = make([]byte, len(bcd))
 	}
-	body := make([]byte, []int{0, 1, 5, 30}[rng.Intn(4)])
+	sizes := []int{0, 1, 5, 30, 127, 128, 255, 256, 511, 512, 513, 1000, 1022, 1023}
+	if small {
+		sizes = sizes[:4]
+	}
+	body := make([]byte, sizes[rng.Intn(len(sizes))])
 	rng.Read(body)
 	if rng.Intn(3) == 0 {
 		for i := range body {
